@@ -106,7 +106,7 @@ impl ToTokens for Expansion {
                     let ret = {
                         let inc = Literal::usize_unsuffixed(inc);
                         fields.is_empty().then_some((
-                            format_ident!("__DISCRIMINANT_{ident}"),
+                            format_ident!("__DISCRIMINANT_{}", ident),
                             (
                                 quote! { (#last_discriminant) + #inc },
                                 quote! { #ident #fields },
